@@ -1,7 +1,10 @@
 """Stream B — the deterministic case set (independent of VERIF_SEED), DESIGN §4.3.
 
 (1) corpus/engine/*.json : minimised witnesses of known findings and regressions (run first);
-(2) the frozen generator harness/streamb_gen.py (all flavours, full alphabet, re-used names), indices 0..N-1.
+(2) the frozen generator harness/streamb_gen.py (all flavours, full alphabet, re-used names), indices 0..N-1;
+(3) the frozen ENUMERATED generator harness/streamb_gen2.py (families sb_nest*): the exhaustive tiny scope — every ordered
+    pair / triple of a 12-operation alphabet over a nested base tree x 8 flavours (all id-style combinations) x acting
+    side x 4 systematic schedules, one-sided and two-sided-disjoint; quick = every pair case, thorough = everything.
 A rejected case whose id is listed (status open) in known_findings.json prints KNOWN-FINDING; any other
 rejected case is a VIOLATION.  The list is never written at run time (harness/tools_known.py builds it).
 """
@@ -13,14 +16,27 @@ from . import enginecheck as EC
 from . import explore as X
 from . import framework as fw
 
+from . import streamb_gen2 as _G2
+
+# generator (version) behind each family
+FAMILY_VERSION = {"sb_nest": _G2.VERSION, "sb_nest_one": _G2.VERSION, "sb_nest_two": _G2.VERSION}
+
+
+def family_version(fam):
+    from . import streamb_gen
+    return FAMILY_VERSION.get(fam, streamb_gen.VERSION)
+
+
 # per property: the monitor mode under which the Stream B cases are judged, the generator families and sizes
+# (family, n_quick, n_thorough): the first n indices of the family's enumeration.  sb_nest*: quick = every pair-history
+# case (N_PAIRS*), thorough = the whole enumeration (pairs + triples).
 PLAN = {
     "C01": dict(mode=dict(origin=None, check_spec=False, no_conflicted=False, cov_every_step=False),
-                families=[("sb_one", 2000, 30000), ("sb_two", 2000, 30000)], ignore={10}),
+                families=[("sb_one", 2000, 30000), ("sb_two", 2000, 30000), ("sb_nest", _G2.N_PAIRS, _G2.N_ALL)], ignore={10}),
     "C02": dict(mode=dict(origin=None, check_spec=False, no_conflicted=False, cov_every_step=False),
                 families=[("sb_two", 3000, 30000)], only={6, 10}),
-    "C03": dict(mode="own", families=[("sb_one", 3000, 30000)], ignore={10}),
-    "C04": dict(mode=None, families=[]),
+    "C03": dict(mode="own", families=[("sb_one", 3000, 30000), ("sb_nest_one", _G2.N_PAIRS_ONE, _G2.N_ONE)], ignore={10}),
+    "C04": dict(mode="own", families=[("sb_nest_two", _G2.N_PAIRS_TWO, _G2.N_TWO)], ignore={10}),
     "C06": dict(mode=None, families=[]),
     "C07": dict(mode=None, families=[]),
     "C10": dict(mode=None, families=[]),
@@ -71,12 +87,22 @@ def run(ctx, prop, streams, what):
     from . import engine as E
     from . import families as F
     plan = PLAN.get(prop)
-    known_ids = {}
+    known_ids = {}      # case id -> [finding, ...]; a finding may name the guard it fails with (auto entries do)
     for k in ctx.known:
         if k.get("status", "open") == "open":
             for cid in k.get("case_ids", []):
-                known_ids[cid] = k
-    info = dict(corpus=0, generated=0, rejected=0, known=0, version=None)
+                known_ids.setdefault(cid, []).append(k)
+
+    def known_for(cid, code):
+        """the listed finding for this failing case AND this guard (a listed case that now fails with a different
+        guard is a different violation and is reported)"""
+        g = EC.GUARDS.get(code, str(code))
+        for k in known_ids.get(cid, []):
+            kg = k.get("guard") or (k["id"].rsplit("-", 1)[-1] if k.get("auto") else None)
+            if kg is None or kg == g:
+                return k
+        return None
+    info = dict(corpus=0, generated=0, rejected=0, known=0, version=None, families={})
     # ---- (1) corpus
     E.install()
     mon = fw.ModelProc("monitor")
@@ -88,31 +114,43 @@ def run(ctx, prop, streams, what):
         if res.verdict != []:
             info["rejected"] += 1
             cid = fw.case_id(dict(corpus=name))
-            if cid in known_ids:
+            kf = known_for(cid, res.verdict[1])
+            if kf is not None:
                 info["known"] += 1
-                ctx.known_finding_seen(known_ids[cid])
+                ctx.known_finding_seen(kf)
             else:
                 ctx.violation("%s [corpus %s]: %s" % (what, name, EC.describe(res)),
                               dict(kind="engine-run", corpus=name, case=j["case"], guard=EC.GUARDS.get(res.verdict[1])))
     mon.close()
     # ---- (2) frozen generator
     if plan and plan["families"]:
-        from . import streamb_gen
-        info["version"] = streamb_gen.VERSION
+        import time
+        versions = []
         for fam, nq, nt in plan["families"]:
             n = nq if ctx.quick else nt
+            t0 = time.time()
             st, fails = run_family(None, prop, fam, n)
             info["generated"] += st["runs"]
+            fi = dict(version=family_version(fam), runs=st["runs"], user_ops=st["user_ops"], engine_provider_calls=st["engine_calls"],
+                      observations=st["obs"], flavours=st["flavours"], rejected=0, known=0)
+            if fi["version"] not in versions:
+                versions.append(fi["version"])
             unknown = []
             for case, verdict, descr, tail in fails:
                 info["rejected"] += 1
+                fi["rejected"] += 1
                 cid = case_key(prop, EC.unjson_case(case))
-                if cid in known_ids:
+                kf = known_for(cid, verdict[1])
+                if kf is not None:
                     info["known"] += 1
-                    ctx.known_finding_seen(known_ids[cid])
+                    fi["known"] += 1
+                    ctx.known_finding_seen(kf)
                 else:
                     unknown.append((case, verdict, descr, tail))
+            fi["wall_s"] = round(time.time() - t0, 1)
+            info["families"][fam] = fi
             runner = getattr(F, "run_streamb_" + prop)
             X.report_failures(ctx, unknown, runner=runner, what=what + " [Stream B %s]" % fam)
+        info["version"] = "+".join(versions)
     streams["stream_b"] = info
     ctx.coverage["evaluations_stream_b"] = info["corpus"] + info["generated"]
